@@ -11,6 +11,8 @@
    which Krylov index it carries, which Krylov vectors have been projected out, whether it is
    normalised; for the result: the list of (coefficient index, Krylov index) terms accumulated.
    The invariants say that the index arithmetic is right for all option values.
+   (No history variable: the machine is bound to the code by TRACE validation, TraceKrylov.tla; the planted
+   cases of part 2 are self-contained states.)
 
    PART 2 -- planted spectra: operators A = Q D Q^dagger / s (block-diagonal in the charge sectors)
    with exactly known eigen-decomposition over the Gaussian integers, start vectors with exactly
@@ -242,7 +244,7 @@ StopRight == N > 0 => /\ N <= opt.Nmax /\ N <= opt.m
    Q = U P L H  (U diagonal of Gaussian units, P a row permutation, L unit lower triangular, H the
    identity, a Hadamard matrix or H2 (+) H2),  Qi = s Q^{-1}  and D a diagonal of (Gaussian) integers.
    With L = 1 and real D the block is Hermitian.  Everything is exact: TLC checks  A Q = s Q D,
-   Qi Q = s 1  (invariant Certificates), so the spectrum and the eigenspaces are *known*.
+   Qi Q = s 1  (invariants BlockCertificate, VectorCertificate), so the spectrum and the eigenspaces are *known*.
    A start vector lives in one charge sector and is planted by its expansion coefficients a,
    v = sum_j a_j q_j; its components c_lambda in the eigenspaces ("comps") are Gaussian-integer
    vectors.  The Krylov space of (A, v) is spanned by the non-zero components, so
@@ -293,6 +295,8 @@ RECURSIVE ISum(_)
 ISum(s) == IF s = <<>> THEN 0 ELSE Head(s) + ISum(Tail(s))
 
 \* vectors = sequences of Gaussian integers, matrices = sequences of rows
+\* (TLCEval: TLC would otherwise keep [i \in S |-> e] as a lazy function and re-evaluate e at every application,
+\*  which is exponential in the nesting depth of the matrix expressions)
 VZero(n) == TLCEval([i \in 1..n |-> C0])
 VAdd(x, y) == TLCEval([i \in 1..Len(x) |-> CAdd(x[i], y[i])])
 VScale(c, x) == TLCEval([i \in 1..Len(x) |-> CMul(c, x[i])])
@@ -322,7 +326,7 @@ LEntry(lk, i, j) ==
     ELSE IF lk = "L1" THEN (IF i = j + 1 THEN C1 ELSE C0)
     ELSE (IF i = j + 1 THEN <<2, 0>> ELSE IF i = j + 2 THEN <<0, 1>> ELSE <<-1, 0>>)                \* "L2"
 LMat(n, lk) == TLCEval([i \in 1..n |-> TLCEval([j \in 1..n |-> LEntry(lk, i, j)])])
-LInv(n, lk) == LET Nil == MatAdd(LMat(n, lk), MatNeg(Ident(n)))    \* (TLCEval: TLC must not keep these as lazy functions)          \* (1 + Nil)^-1 = 1 - Nil + Nil^2 - Nil^3
+LInv(n, lk) == LET Nil == MatAdd(LMat(n, lk), MatNeg(Ident(n)))          \* (1 + Nil)^-1 = 1 - Nil + Nil^2 - Nil^3
                    N2 == MatMul(Nil, Nil)
                    N3 == MatMul(N2, Nil)
                IN IF lk = "I" THEN Ident(n) ELSE TLCEval(MatAdd(MatAdd(Ident(n), MatNeg(Nil)), MatAdd(N2, MatNeg(N3))))
